@@ -52,3 +52,44 @@ Example C14_nonvacuous :
   (register (fun t : N => (t * 7 + 3)%N) st0 [1%N; 2%N; 1%N]).1 = (register (fun t : N => (t * 7 + 3)%N) st0 [2%N; 1%N]).1
   /\ (register (fun t : N => (t * 7 + 3)%N) st0 [2%N; 1%N; 5%N]).1 <> (register (fun t : N => (t * 7 + 3)%N) st0 [2%N; 1%N]).1.
 Proof. vm_compute. split; [reflexivity|discriminate]. Qed.
+
+(* ---- tie to the source: the function bodies below are re-translated from /repo on every run
+   (harness/cmd/gofunc -> theories/Generated/Funcs.v, interpreted by theories/GoIR.v) ---- *)
+From Coq Require Import String.
+From Cache Require Import GoIR.
+From Cache.Generated Require Import Funcs.
+Open Scope string_scope.
+Open Scope Z_scope.
+From Coq Require Import String.
+From Cache Require Import GoIR TieGob TieHTTP.
+From Cache.Generated Require Import Funcs.
+Open Scope string_scope.
+Open Scope Z_scope.
+
+(* GobRegister, one value: a registered type contributes nothing; a new one is fingerprinted with a hasher and a
+   visited-set of ITS OWN and XORed into the types hash (the registration step of the hash laws above) *)
+Theorem C14_source_register_iteration : forall registered has_registry hash0 fp,
+  run_gob_iter registered has_registry hash0 fp =
+  Some (if registered then (hash0, true, [])
+        else (Z.lxor hash0 fp, true,
+              [("new hasher", []); ("hash package path and name", []);
+               ("hash structure with a visited set of its own", []); ("gob.Register", [])])).
+Proof. exact tie_gob_register_iteration. Qed.
+Print Assumptions C14_source_register_iteration.
+
+(* the Export handler dumps iff name given, cache registered, hash given and EQUAL to the exporter's — for every
+   exporter hash, zero included *)
+Theorem C14_source_export_gate : forall h i, run_export h i = Some (export_spec i).
+Proof. exact tie_export. Qed.
+Print Assumptions C14_source_export_gate.
+
+(* Import, one registered cache: asks by this cache's name with the importer's hash, restores into THIS cache iff the
+   answer is 200, and always goes on to the next cache *)
+Theorem C14_source_import_iteration : forall req_ok rt_ok transport warn read_ok copy_ok close_ok,
+  (forall status, status <> 200 ->
+     run_import_iter (mkIm req_ok rt_ok status transport warn read_ok copy_ok close_ok)
+     = Some (import_spec (mkIm req_ok rt_ok status transport warn read_ok copy_ok close_ok))) /\
+  run_import_iter (mkIm req_ok rt_ok 200 transport warn read_ok copy_ok close_ok)
+  = Some (import_spec (mkIm req_ok rt_ok 200 transport warn read_ok copy_ok close_ok)).
+Proof. exact tie_import_iteration. Qed.
+Print Assumptions C14_source_import_iteration.
